@@ -519,6 +519,7 @@ impl TorrentData {
                     out_message_consumer_id: offer_receiver_consumer_id,
                     connection_id: offer_receiver_connection_id,
                     pending_scrape_id: None,
+                    close_connection: false,
                 };
 
                 out_messages.push((meta, OutMessage::OfferOutMessage(offer_out_message)));
@@ -559,6 +560,7 @@ impl TorrentData {
                     out_message_consumer_id: answer_receiver.consumer_id,
                     connection_id: answer_receiver.connection_id,
                     pending_scrape_id: None,
+                    close_connection: false,
                 };
 
                 Some((meta, OutMessage::AnswerOutMessage(answer_out_message)))
